@@ -446,9 +446,31 @@ def run(tier):
     rep.extra["dispatch_table"] = {"%s|%s" % k: sorted(v) for k, v in dispatch.items()}
     rep.ob("C08.extract|dispatch", okd, "parse_iter: skip(mode) first, mode reset to NewLine, a directive's result becomes the next mode, end of input ends the file" if okd else
            "parse_iter dispatch differs from the expected protocol: %s" % disp, kind="unprovable")
-    # inertness of skipped lines
-    rep.ob("C08.inert", not effects, "the scan loop calls nothing but the line iterator and the line parser: skipped text has no effect and unparsable skipped text is ignored" if not effects else
-           "while skipping, the scanner calls %s" % effects)
+    # inertness of skipped lines: nothing effectful is reachable from the scanner (resolved call graph)
+    DENY = re.compile(r"^directive::Directive::parse$|::push_to_last$|::add_segment$|^parser::parse_file_internal$|^parser::parse(_iter)?$|::set_(define|equ|label|def|special)$|"
+                      r"^failure::err_msg$|^std::rt::begin_panic|^core::panicking::")
+    bad_callees = set()
+    for k in P.reachable(["parser::skip"]):
+        if k.startswith("document::document::"):
+            continue        # the generated line parser (pure)
+        for bb, t, name, tg in P.call_sites(k):
+            full, rp = MU.callee_names(t)
+            for cand in [rp] + list(tg):
+                if DENY.search(cand):
+                    bad_callees.add(cand)
+    # pushes to the message list
+    for k in P.reachable(["parser::skip"]):
+        if k.startswith("document::document::"):
+            continue
+        b_ = P.body[k]
+        for bb, t, name, tg in P.call_sites(k):
+            if MU.callee_names(t)[1] == "std::vec::Vec::<T, A>::push":
+                ch_ = MU.Chaser(b_)
+                root, proj, trail = ch_.root(t["args"][0])
+                if any("messages" in str(e_) for e_ in proj) or "String" in P.tys(k, (t["callee"].get("rgenerics") or t["callee"].get("generics") or [0])[0]) and "CodePoint" not in P.tys(k, (t["callee"].get("rgenerics") or t["callee"].get("generics") or [0])[0]):
+                    bad_callees.add("Vec<String>::push (message list?) in %s" % k)
+    rep.ob("C08.inert", not bad_callees, "nothing effectful is reachable from the scanner (no directive handling, item push, symbol setter, message, error or panic): skipped text — even unparsable text — has no effect" if not bad_callees else
+           "while skipping, the scanner can reach %s" % sorted(bad_callees))
     if miss or "EndIf" not in scan:
         return rep
     violations, nstates, ntrans = explore_product(scan, parse, dispatch)
